@@ -27,6 +27,13 @@ static void do_gf128mul(char **w) {
 	gf128_from_bytes(x, a.p); gf128_from_bytes(y, b.p); gf128_mul(r, x, y); gf128_to_bytes(r, o);
 	puthex(o, 16); free(o); freeb(&a); freeb(&b);
 }
+/* gf128x2 a : gf128_mul_by_2 ; gf128one a : a * (gf128_set_one) */
+static void do_gf128x(char **w, int one) {
+	buf_t a = hex2buf(w[1]); gf128_t x, y, r; uint8_t *o = malloc(16);
+	gf128_from_bytes(x, a.p);
+	if (one) { gf128_set_one(y); gf128_mul(r, x, y); } else gf128_mul_by_2(r, x);
+	gf128_to_bytes(r, o); puthex(o, 16); free(o); freeb(&a);
+}
 /* ghash h aad c | ghashs h aad chunks */
 static void do_ghash(char **w, int stream) {
 	buf_t h = hex2buf(w[1]), aad = hex2buf(w[2]); uint8_t *o = malloc(16);
@@ -255,6 +262,8 @@ static void handle(size_t nw, char **w) {
 	char *op = w[0]; size_t ol = strlen(op);
 	inplace = 0; if (ol && op[ol - 1] == '!') { inplace = 1; op[ol - 1] = 0; }
 	if (!strcmp(op, "gf128mul") && nw == 3) do_gf128mul(w);
+	else if (!strcmp(op, "gf128x2") && nw == 2) do_gf128x(w, 0);
+	else if (!strcmp(op, "gf128one") && nw == 2) do_gf128x(w, 1);
 	else if (!strcmp(op, "ghash") && nw == 4) do_ghash(w, 0);
 	else if (!strcmp(op, "ghashs") && nw == 4) do_ghash(w, 1);
 	else if (!strcmp(op, "gcmenc") && nw == 7) do_gcmenc(w);
